@@ -354,11 +354,48 @@ func runC06(t *testing.T, tape *sim.Tape, tier string) *Outcome {
 		}
 		o.Hashes = append(o.Hashes, hash64(fmt.Sprintf("%d|%v|%s", j, r.cuts, bad)))
 	}
+	// whatever the faulted streams did to the parsers that read them, a fresh parser reads valid streams correctly
+	// afterwards (flat, nested and wide arrays: nothing of an earlier parser's state may reach a later one)
+	if len(o.Viol) == 0 {
+		for _, probe := range afterFaultProbes {
+			enc := probe.Encode()
+			p := proto.NewParserWithReader(&scriptedReader{data: enc})
+			m, err := p.Next()
+			if err != nil || m == nil {
+				o.violate("c06:valid-stream-after-faulted-one", "after the faulted stream %q (%s) a fresh parser reads the valid value %s as (%v, %v)", clip(bad, 120), desc, probe.String(), m, err)
+				break
+			}
+			got, err := fromProto(m)
+			if err != nil || !got.Equal(probe) {
+				sig := "c06:valid-stream-after-faulted-one"
+				if err != nil && strings.Contains(err.Error(), "absent element") {
+					sig = "c06:absent-element"
+				}
+				o.violate(sig, "after the faulted stream %q (%s) a fresh parser reads the valid value %s as %s (%v)", clip(bad, 120), desc, probe.String(), got.String(), err)
+				break
+			}
+		}
+		o.Evals++
+	}
 	o.Sched = desc
 	o.Nontrivial = desc != ""
 	o.Sample = map[string]any{"valid_values": fmt.Sprint(want), "faults": desc, "delivered": clip(bad, 160)}
 	return o
 }
+
+// afterFaultProbes: valid values parsed by a fresh parser at the end of every run.
+var afterFaultProbes = func() []resp.Value {
+	wide := make([]resp.Value, 40)
+	for i := range wide {
+		wide[i] = resp.Bs(fmt.Sprintf("w%d", i))
+	}
+	return []resp.Value{
+		resp.Ar(resp.Bs("a"), resp.Ar(resp.Bs("b")), resp.Bs("c")),
+		resp.Ar(resp.Bs("GET"), resp.Bs("k")),
+		resp.Ar(resp.Ar(resp.Ar(resp.In(1), resp.St("x")), resp.Bs("y")), resp.NullBulk(), resp.Ar()),
+		resp.Ar(wide...),
+	}
+}()
 
 func bombClass(b []byte) string {
 	switch {
@@ -388,7 +425,7 @@ func init() {
 	register(&Check{
 		ID: "C06", Bubble: false, Run: runC06,
 		Runs:   map[string]int{"quick": 300000, "thorough": 10000000},
-		Rule:   "a case is one (faulted stream, delivery schedule) pair: a valid generated stream with 1..3 transport/peer faults (truncate at any byte with EOF, ECONNRESET, a read deadline that has expired and stays expired, an error value of slice type or a wrapped net.ErrClosed, segment loss/duplication/reordering, byte corruption biased to structure, length/count replaced by a boundary integer, nesting amplification) delivered whole, byte-wise, in a seeded partition and whole together with the end-of-stream indication (n>0 with EOF/ECONNRESET); 1 stream in 16 carries no fault; inputs declaring lengths above 2^20 and an enumerated boundary table run one per subprocess under a 4 GiB address-space limit; distinct = distinct (stream, partition) hashes; non-trivial = at least one fault applied",
+		Rule:   "a case is one (faulted stream, delivery schedule) pair: a valid generated stream with 1..3 transport/peer faults (truncate at any byte with EOF, ECONNRESET, a read deadline that has expired and stays expired, an error value of slice type or a wrapped net.ErrClosed, segment loss/duplication/reordering, byte corruption biased to structure, length/count replaced by a boundary integer, nesting amplification) delivered whole, byte-wise, in a seeded partition and whole together with the end-of-stream indication (n>0 with EOF/ECONNRESET); 1 stream in 16 carries no fault; at the end of every run a fresh parser must read four valid probe values (nested, flat, deeply nested, wide) correctly; inputs declaring lengths above 2^20 and an enumerated boundary table run one per subprocess under a 4 GiB address-space limit; distinct = distinct (stream, partition) hashes; non-trivial = at least one fault applied",
 		Real:   []string{"redis/proto parser"},
 		Stub:   []string{"transport: scripted io.Reader applying stream faults", "process isolation: prlimit --as=4GiB subprocess for allocation bombs"},
 		Assume: []string{"a deployment with a 4 GiB address-space limit must survive any input of at most 1 MiB", "coverage-guided fuzzing is a different technique and is not done"},
